@@ -87,7 +87,8 @@ class MPLSVPN(NLRI):
             # the label stack may hold more than one label
             label_byte_len = 3 * len(nlri_dict['label'])
             nlri_dict['rd'] = MPLSVPN.parse_rd(value[1 + label_byte_len:9 + label_byte_len])
-            prefix = value[9 + label_byte_len:prefix_byte_len + 1]
+            prefix = cls.clear_trailing_bits(
+                value[9 + label_byte_len:prefix_byte_len + 1], prefix_bit_len - 64 - 8 * label_byte_len)
             if cls.AFI == afn.AFNUM_INET and cls.SAFI == safn.SAFNUM_LAB_VPNUNICAST:
                 if len(prefix) < 4:
                     prefix += b'\x00' * (4 - len(prefix))
